@@ -13,12 +13,17 @@ FlagsNone == {{}}
 FlagsG    == {{"G"}}
 FlagsAll  == {{}, {"G"}, {"P"}, {"G", "P"}}
 FlagsGP   == {{}, {"G"}, {"G", "P"}}
+FlagsGPS  == {{}, {"G"}, {"G", "S"}, {"P"}}
 Both      == {TRUE, FALSE}
 
+\* Depth bound as an enabling condition: states at depth MaxLevel are reached and checked but not expanded, so no
+\* successor is generated only to be thrown away (a CONSTRAINT would generate, check and print all of them).
+GoBounded == TLCGet("level") < MaxLevel
 Bound == TLCGet("level") <= MaxLevel
 \* moves only counts; hiding it (and the derived history set) closes the state space of the exhaustive run
 ViewClosed == <<children, loc, byLoc, sfp, slot, fresh, purged, num, nextNum, asmTab, blkTab, blocks, bname, content, track, sflags>>
 ViewAll == vars
+\* one line per explored edge, one line per distinct state
 Emit == PrintT(ToJson([lvl |-> TLCGet("level"), from |-> Vars, act |-> act', to |-> Vars', err |-> err']))
 EmitState == PrintT(ToJson([st |-> Vars, obs |-> Obs]))
 ASSUME PrintT(ToJson([config |-> Config]))
